@@ -2,6 +2,12 @@
 package c14
 
 import (
+	"context"
+
+	"github.com/jig/lisp"
+	"github.com/jig/lisp/env"
+	"github.com/jig/lisp/lib/core"
+	. "github.com/jig/lisp/types"
 	"github.com/jig/lisp/types"
 	"verif.example/h/lib"
 	"verif.example/h/vrt"
@@ -37,4 +43,63 @@ func Harness_triples() {
 		vrt.Assert(types.Equal_Q(a, c), "Equal_Q not transitive")
 	}
 	vrt.Reach("end")
+}
+
+// Harness_shared: equality must not depend on how values are stored: values that
+// share a backing array (subvec, rest, seq, vec, conj, with-meta of one another)
+// and values read from different places of a text (different source positions).
+func Harness_shared() {
+	ctx := context.Background()
+	base := Vector{Val: []MalType{1, 2, 3}}
+	fn := func(name string, args ...MalType) MalType {
+		f, err := Env.Get(Symbol{Val: name})
+		if err != nil {
+			panic(err)
+		}
+		v, err := f.(Func).Fn(ctx, args)
+		vrt.Assume(err == nil)
+		return v
+	}
+	derive := func(tag string) MalType {
+		switch vrt.Concrete(vrt.Choice(tag, 9)) {
+		case 0:
+			return base
+		case 1:
+			return fn("subvec", base, vrt.Concrete(vrt.IntRange(tag+"/i", 0, 3)), vrt.Concrete(vrt.IntRange(tag+"/j", 0, 3)))
+		case 2:
+			return fn("rest", base)
+		case 3:
+			return fn("seq", base)
+		case 4:
+			return fn("vec", fn("rest", base))
+		case 5:
+			return fn("take", vrt.Concrete(vrt.IntRange(tag+"/n", 0, 3)), base)
+		case 6:
+			return fn("with-meta", base, 7)
+		case 7:
+			return HashMap{Val: map[string]MalType{"k": fn("subvec", base, 0, 2)}}
+		default:
+			return HashMap{Val: map[string]MalType{"k": base}}
+		}
+	}
+	a := derive("a")
+	b := derive("b")
+	vrt.Assert(types.Equal_Q(a, b) == lib.RefEq(a, b), "Equal_Q differs from structural equality on values that share storage")
+	vrt.Assert(types.Equal_Q(b, a) == lib.RefEq(a, b), "Equal_Q not symmetric on values that share storage")
+	// the same data read from two different places of one text
+	texts := []string{"{:k x}", "(a [b {:c d}])", "[x \"s\" :k 1]", "#{:a :b}", "{:k (x y)}"}
+	t := texts[vrt.Concrete(vrt.Choice("text", len(texts)))]
+	pad := []string{"", " ", "\n\n  ", ";c\n"}[vrt.Concrete(vrt.Choice("pad", 4))]
+	both, err := lisp.READ("["+t+pad+" "+t+"]", nil, nil)
+	vrt.Assert(err == nil, "text rejected")
+	pair := both.(Vector).Val
+	vrt.Assert(types.Equal_Q(pair[0], pair[1]), "the same data read from two places of a text is not equal")
+	vrt.Reach("end")
+}
+
+var Env types.EnvType
+
+func Setup() {
+	Env = env.NewEnv()
+	core.Load(Env)
 }
